@@ -10,6 +10,9 @@ use pickle_fuzzer::{Generator, Mutator, MutatorKind, Version};
 
 mod front;
 mod heap;
+
+#[global_allocator]
+static GLOBAL: heap::Counting = heap::Counting;
 mod mutsrc;
 mod probe;
 
